@@ -122,19 +122,24 @@ CLAIMED = {
          "saturating to +-0/+-Inf outside the range), SetInt (precision 0 becomes max(#digits, 34), so integers are stored exactly) "
          "store the argument rounded once per the rational specification with a canonical receiver; Int truncates toward zero with "
          "Exact iff nothing is discarded, else the sign of the discarded part; Rat returns exactly x in lowest terms; MinPrec is the "
-         "number of significant digits. Int64/Uint64 saturation, IsInt and SetRat have no closed theorem yet and are decided by "
-         "correspondence: " + CORR + ".",
+         "number of significant digits; Int64/Uint64 are the truncation saturated at the type bounds with the documented accuracy; "
+         "IsInt is true exactly for integer values; SetRat is num/den rounded once (precision 0 becomes max(34, digits)). The model "
+         "is tied to the code by correspondence: " + CORR + " (out-parameters of Int/Rat are also passed in dirty, reused state).",
     design_ref="DESIGN.md section 6 C14",
     note="As C01. big.Int/big.Rat arguments are mathematical integers in the model; SetInt's float64 digit estimate is assumed never to under-estimate (argued in L3/Convert.v).",
     technique="Coq proof of setter/getter models vs rational specification + correspondence with exact-rational oracle"),
  "C17": dict(
-    category="other",
-    text="Gob codec: byte-level executable Coq model (L4/Gob.v) with no closed theorem yet; decided by correspondence: " + CORR +
-         " (byte-identical encodings, exact attribute round trip, rounding into non-zero precision receivers, error-or-canonical "
-         "and receiver-untouched-on-error for every single-byte mutation, truncation and random byte strings).",
+    category="proof",
+    text="Coq theorems (Props/C17.v, closed under the global context) on the byte-level model of GobEncode/GobDecode: for EVERY "
+         "canonical x, decoding its encoding into a fresh Decimal succeeds and gives a canonical value observationally equal to x "
+         "(form, sign, precision, mode, accuracy, exponent, digits; identical when the mantissa has no spare low words); decoding "
+         "into a receiver with non-zero precision keeps that precision and mode and holds the decoded value rounded once; for "
+         "EVERY byte string decoding never panics, leaves the receiver untouched on error, and otherwise yields a canonical value. "
+         "The model is tied to decimal_marsh.go by correspondence: " + CORR + " (byte-identical encodings, every single-byte "
+         "mutation, truncations and random byte strings).",
     design_ref="DESIGN.md section 6 C17",
-    note="Model + correspondence + independent oracle; theorems pending.",
-    technique="Coq executable byte-level model + model/code correspondence over corrupted streams"),
+    note="Side condition of the totality theorem: buffers shorter than 2^30 bytes when the receiver has a non-zero precision (uint32 digit arithmetic in round). encoding/gob framing is not modelled.",
+    technique="Coq proof of round trip and decoder totality on a byte-level model + correspondence over corrupted streams"),
  "C20": dict(
     category="proof",
     text="Coq theorems (Props/C20.v, closed under the global context): SetBitsExp(mant, exp) for ANY slice of words below the base "
@@ -151,11 +156,11 @@ CLAIMED = {
          "ErrNaN exactly on the invalid operations (Inf-Inf, 0*Inf, 0/0, Inf/Inf), otherwise returns what the IEEE-754 tables "
          "prescribe for zero/infinite operands (signs by XOR, x/0 and Inf*x infinite, x/Inf zero, exact zero sums +0 or -0 under "
          "ToNegativeInf, (-0)+(-0) = -0), leaves a canonical receiver also after ErrNaN, and never panics otherwise (CrashR "
-         "unreachable for canonical operands). FMA/Sqrt/SetFloat64 rows of the table are decided by the correspondence run and "
-         "an independent class table in the harness, exhaustive over operand classes x modes x aliasing.",
+         "unreachable for canonical operands); the FMA table (product table followed by sum table, ErrNaN iff 0*Inf or Inf-Inf) "
+         "likewise. Sqrt(negative) and SetFloat64(NaN) are theorems of Props/C05.v / C15.v. All rows are additionally decided on the "
+         "code by the correspondence run and an independent class table in the harness, exhaustive over operand classes x modes x aliasing.",
     design_ref="DESIGN.md section 6 C04",
-    note="As C01; FMA, Sqrt and SetFloat64 special cases have no closed theorem yet (named in Props/C04.v) and are covered by "
-         "exhaustive class enumeration against the code and the model.",
+    note="As C01; FMA with finite x,y of overflowing product and infinite u is excluded by hypothesis (see known_findings K3/F19); FMA no-other-panic theorem not assembled.",
     technique="Coq proof of the special-value tables and absence of other panics + exhaustive class-table correspondence"),
  "C06": dict(
     category="proof",
